@@ -179,7 +179,12 @@ class _BcryptCommon(  # type: ignore[misc]
         )
 
     def to_string(self):
-        return "%s%02d$%s%s" % (self.ident, self.rounds, self.salt, self.checksum)
+        return "%s%02d$%s%s" % (
+            self.ident,
+            self.rounds,
+            self.salt,
+            self.checksum or "",
+        )
 
     # NOTE: this should be kept separate from to_string()
     #       so that bcrypt_sha256() can still use it, while overriding to_string()
